@@ -144,6 +144,7 @@ class LifeSystem:
         if not self.deep.started:
             self.lives = getattr(self, 'lives', 0) + 1
             self.late_hash = 'h%d' % self.lives
+            self.poll_fail = False          # (a service that failed during the previous shutdown is back for this life)
         self.deep.start()
 
     def start_fails(self):
